@@ -98,6 +98,11 @@ add("C18", "runtime monitor: consistency predicates on hooked fields + a referen
     "Time-driven transitions are expected at update() calls ('by the next update' literally); the acceptor compares public observables only.",
     "DESIGN.md 3/C18")
 
+add("C15", "controlled scheduler (sys.monitoring INSTRUCTION events + scheduler-aware lock/timer proxies) choosing the thread interleaving of the real router and location table; offline conservation/uniqueness checkers over each recorded execution",
+    "Exploration: one real Router/LocationTable is driven by 2-4 actor threads performing 1-3 operations each (originate GBC/GAC/GUC/SHB, deliver SHB/GBC/duplicate GBC/LS request/LS reply frames, refresh the ego position) in three scenario families (origination, contention-based forwarding, location service); CBF and LS timers armed by the router are further actors that the controller may expire at any step until cancel() is called. Schedules: breadth-first over all schedules with up to 3 preemptions placed at synchronisation operations (lock acquire/release, timer start/cancel, transmission), every single preemption at every attribute/subscript/call instruction of router.py and location_table.py, sampled pairs of such preemptions, and randomised schedules with geometric run lengths and eager/lazy timers. After each execution: SN uniqueness of originated multi-hop packets, CBF conservation (inserted = transmitted by expiry + removed by a duplicate; at most one transmission per packet), ego PV of every emitted frame in the set of installed PVs, LS conservation (each buffered request transmitted exactly once or dropped by the give-up branch), no exception (also those swallowed by the receive guard), no deadlock.",
+    "Interleavings are sequentially consistent at bytecode-instruction granularity (what CPython executes); preemption bound 3 (sync) / 2 (instruction) plus random schedules, not all schedules; a stale (already expired) timer object left in _ls_timers is not judged.",
+    "DESIGN.md 3/C15")
+
 NOT_YET = "check not built yet (work in progress; runtime monitor planned in DESIGN.md section 3)"
 
 def main():
